@@ -20,8 +20,8 @@ theorem Mono.trans {p p' p'' : PSide} (a : Mono p p') (b : Mono p' p'') : Mono p
 theorem Mono.inv {p p' : PSide} (m : Mono p p') (h : PInv p) : PInv p' ∧ Grow p p' :=
   ⟨h.congr m.v m.w m.n, Grow.of_eq m.v m.n⟩
 
-theorem prepareResponder_mono (cfg : Cfg) (p : PSide) (via : UNode) (pkt : Handle) (c : Completed) :
-    Mono p (p.prepareResponder cfg via pkt c).1 := by
+theorem prepareResponder_mono (cfg : Cfg) (p : PSide) (via : UNode) (pkt : Handle) (c : Completed) (rv : Nat) :
+    Mono p (p.prepareResponder cfg via pkt c rv).1 := by
   unfold PSide.prepareResponder
   have s := (genIndex_same cfg 8 p).trans (freshHandle_same cfg (p.genIndex cfg 8).1)
   exact ⟨s.v, s.w, by show p.nextObj ≤ _ + 1; rw [s.n]; omega⟩
@@ -32,7 +32,7 @@ theorem buildStage0_flushed (c : Cfg) (mi : List (Nat × HostInfo)) (p : PSide) 
     (p.buildStage0 c mi hh now).2.2.1.flushed = [] := by
   unfold PSide.buildStage0
   dsimp only
-  generalize (if (decide (c.defaultVer < 2) && is6 hh.vpnAddr) = true then 2 else c.defaultVer) = v
+  generalize stage0Version c hh = v
   by_cases hv : (!c.hasVer v) = true
   · rw [if_pos hv]
   · rw [if_neg hv]
@@ -166,8 +166,8 @@ theorem beginHandshake_mono (n : Node) (via : UNode) (pkt : Handle) (res : Optio
   · rename_i c
     split
     · exact ⟨Mono.of_same ((genIndex_same n.cfg 8 n.p).trans (freshHandle_same n.cfg _)), rfl⟩
-    · have m := prepareResponder_mono n.cfg n.p via pkt c
-      generalize n.p.prepareResponder n.cfg via pkt c = pr at m
+    · have m := prepareResponder_mono n.cfg n.p via pkt c rv
+      generalize n.p.prepareResponder n.cfg via pkt c rv = pr at m
       obtain ⟨p, hi, rid⟩ := pr
       dsimp only at m ⊢
       split
@@ -239,5 +239,31 @@ theorem step_pinv (n : Node) (e : Ev) (h : PInv n.p) :
       · split
         · exact ⟨h, Grow.refl _, Or.inl rfl⟩
         · split <;> exact ⟨h, Grow.refl _, Or.inl rfl⟩
+  | block ids =>
+    exact mono (p' := (n.step (.block ids)).1.p) (r := n.step (.block ids)) ⟨rfl, rfl, Nat.le_refl _⟩ rfl rfl
+  | cmcheck li i o =>
+    have lhOnly : ∀ (lh : LH), PInv ({ n.p with lh := lh } : PSide) ∧ Grow n.p ({ n.p with lh := lh } : PSide) :=
+      fun lh => (⟨rfl, rfl, Nat.le_refl _⟩ : Mono n.p { n.p with lh := lh }).inv h
+    simp only [Node.step, Node.trafficCheck]
+    split
+    · exact ⟨h, Grow.refl _, Or.inl rfl⟩
+    · rename_i hi hk
+      split
+      · split
+        · exact ⟨(lhOnly _).1, (lhOnly _).2, Or.inl rfl⟩
+        · exact ⟨h, Grow.refl _, Or.inl rfl⟩
+      · split
+        · exact ⟨(lhOnly _).1, (lhOnly _).2, Or.inl rfl⟩
+        · exact ⟨h, Grow.refl _, Or.inl rfl⟩
+      · exact ⟨h, Grow.refl _, Or.inl rfl⟩
+      · split
+        · have cb : GoodCb (fun hh : Pending => { hh with verOverride := hi.certVer }) :=
+            ⟨fun _ => rfl, fun _ => rfl, fun _ e => e⟩
+          have := startHandshake_inv n.cfg n.p (hi.vpnAddrs.headD 0) _ cb h
+          exact ⟨this.1, this.2, Or.inl rfl⟩
+        · exact ⟨h, Grow.refl _, Or.inl rfl⟩
+      · exact ⟨h, Grow.refl _, Or.inl rfl⟩
+      · exact ⟨h, Grow.refl _, Or.inl rfl⟩
+      · exact ⟨h, Grow.refl _, Or.inl rfl⟩
 
 end Nebula.Lemmas.HsPending
